@@ -1,0 +1,10 @@
+//go:build verif
+// +build verif
+
+package tso
+
+// VerifDifferentiate calls the unexported differentiateLogical of a timestamp oracle with the given suffix.
+func VerifDifferentiate(rawLogical int64, suffixBits int, suffix int) int64 {
+	t := &timestampOracle{suffix: suffix}
+	return t.differentiateLogical(rawLogical, suffixBits)
+}
